@@ -883,10 +883,10 @@ package ro
 //@   on next(ctx, value) : emits call.Sleep(duration), Next(ctx, value)
 
 //@ operator Catch
-//@   props C04 C07 C09 C08
+//@   props C04 C07 C09 C08 C15
 //@   note on an error the fallback chosen by the user function is subscribed with the error notification's context and the downstream observer itself, and is registered for release
 //@   alias fallback=finally()
-//@   track callfn.finally fallback.SubscribeWithContext subscriptions.AddUnsubscribable
+//@   track callfn.finally fallback.SubscribeWithContext subscriptions.*
 //@   on next(ctx, value) : emits Next(ctx, value)
 //@   on error(ctx, err) : emits callfn.finally(err), fallback.SubscribeWithContext(ctx, destination), subscriptions.AddUnsubscribable(res(fallback.SubscribeWithContext))
 
